@@ -11,6 +11,8 @@ import time
 from hypothesis import strategies as st
 
 from pyrtma.header import MessageHeader, TimeCodeMessageHeader
+import pyrtma
+import pyrtma.message as _pm
 from pyrtma.message import Message
 from pyrtma.message_base import RTMAJSONEncoder
 from pyrtma.message_data import MessageData
@@ -35,7 +37,10 @@ RULE = (
     "from_json/to_dict/copy with either header layout (MessageHeader or TimeCodeMessageHeader with utc fields over uint32; the "
     "header alone also goes through to_dict/from_dict/to_json/from_json/copy; the same header class must come back) and every header field drawn independently over its domain (num_data_bytes in {0, type size, "
     "other, negative}, not tied to the data; msg_type fixed to the class id; version 0 or the type hash), plus refusal of a "
-    "non-zero foreign version. "
+    "non-zero foreign version. A sixth campaign draws registry histories: 2-4 registrations through pyrtma.message_def of "
+    "classes with ONE type id but different layouts/hashes (or the same class again), with lookups (get_msg_cls, Message "
+    "round trips, foreign versions incl. the previous class's hash) in between; after each registration the round trip and "
+    "the refusal are judged against the class registered last; the registry entry is restored after every case. "
     "Non-trivial = an instance with >=1 non-default field among {NaN, -0.0, extreme, denormal, control char/quote, "
     "max-length string, all-0xFF bytes, field inside a struct-array element}; distinct = (route, class source, set of "
     "(special class, field kind))."
@@ -286,10 +291,104 @@ def _set_header(trace: dict, cls: type, version: int):
     return h
 
 
+REGISTRY_IDS = [30001, 30002]  # type ids used for registry histories (no core / family / generated class has them)
+KEY_STALE = "registry/stale-class-after-re-registration"
+_MISSING = object()
+
+
+def _clear_lookup_cache():
+    cc = getattr(_pm.get_msg_cls, "cache_clear", None)  # should the lookup be memoised: every case starts and ends clean
+    if cc is not None:
+        cc()
+
+
+def run_registry_case(trace: dict, res: Result):
+    """History on the message registry: classes of ONE type id but different layouts / hashes are registered one after
+    the other through the public decorator, with lookups in between; after each registration the header-plus-data
+    round trip and the refusal of a foreign version are judged against the class registered NOW."""
+    route = "registry"
+    tid = trace["id"]
+    saved = _pm._msg_defs.get(tid, _MISSING)
+    _clear_lookup_cache()
+    sig = []
+    try:
+        prev = None
+        for gi, g in enumerate(trace["gens"]):
+            cls = msgs.resolve({"spec": g["spec"], "rid": tid})
+            pyrtma.message_def(cls)  # the way definition modules register their classes
+            sig.append("same" if cls is prev else "new")
+            m = cls()
+            marks, seen = set(), {}
+            for s_ in g["sets"]:
+                apply_set(m, s_, res, marks, seen)
+            b = bytes(m)
+            ops = list(g["ops"]) + [["rt", True, True], ["foreign", "prev"], ["foreign", 0x5EED5EED]]
+            try:
+                for op in ops:
+                    sig.append(op[0])
+                    if op[0] == "get":
+                        _call(route, "get_msg_cls(id)", trace, _pm.get_msg_cls, tid)  # a lookup; judged through the round trips
+                        continue
+                    if op[0] == "rt":
+                        h = MessageHeader()
+                        h.msg_type = tid
+                        h.num_data_bytes = len(b)
+                        h.version = cls.type_hash if op[1] else 0
+                        hb = bytes(h)
+                        s = _call(route, "Message.to_json()", trace, Message(h, m).to_json, minify=bool(op[2]))
+                        r = _call(route, f"Message.from_json(version={'hash' if op[1] else 0}) [generation {gi}]", trace, Message.from_json, s)
+                        _same(route, "Message.from_json(...).header", MessageHeader, r.header, hb, trace)
+                        _same(route, f"Message.from_json(...).data [generation {gi}]", cls, r.data, b, trace)
+                        res.count("registry:round-trip")
+                        continue
+                    bad = op[1]
+                    if bad == "prev":
+                        bad = prev.type_hash if prev is not None else 0
+                    if bad in (0, cls.type_hash):
+                        continue
+                    h = MessageHeader()
+                    h.msg_type = tid
+                    h.version = bad
+                    s = _call(route, "Message.to_json(foreign version)", trace, Message(h, m).to_json, minify=True)
+                    try:
+                        Message.from_json(s)
+                    except Exception:
+                        res.count("registry:foreign-version-refused" + (":outdated-hash" if op[1] == "prev" else ""))
+                    else:
+                        raise Violation(f"{route}/foreign-version-accepted",
+                                        f"{cls.__name__} (generation {gi}): header version {bad:#x} != registered hash {cls.type_hash:#x} "
+                                        f"was decoded without error", trace)
+            except Violation as v:
+                try:
+                    now = _pm.get_msg_cls(tid)
+                except Exception:
+                    now = None
+                if gi > 0 and now is not cls:
+                    raise Violation(KEY_STALE, f"after {gi + 1} registrations for type id {tid} (ops {' '.join(sig)}) the lookup still yields "
+                                    f"{getattr(now, '__name__', now)} instead of the class registered last, {cls.__name__}: {v.what}", trace)
+                raise
+            prev = cls
+    finally:
+        if saved is _MISSING:
+            _pm._msg_defs.pop(tid, None)
+        else:
+            _pm._msg_defs[tid] = saved
+        _clear_lookup_cache()
+    kinds = [x for x in sig if x in ("same", "new")]
+    if kinds.count("new") > 1:
+        res.shape(route, " ".join(sig))
+        res.count("nontrivial")
+        res.count("registry:re-registration-with-different-class")
+        if any(sig[i] in ("get", "rt") for i in range(1, len(sig))):
+            res.sample({"route": route, "history": " ".join(sig)}, limit=5)
+
+
 def run_case(trace: dict, res: Result):
     """Apply the history; run the route's round-trip oracle at every checkpoint (after the stores whose index is in
     trace["cp"]) and at the end - always on the SAME objects, against their CURRENT bytes."""
     route = trace["sub"]
+    if route == "registry":
+        return run_registry_case(trace, res)
     cls = msgs.resolve(trace["cls"])
     m = cls()
     marks, seen = set(), {}
@@ -576,6 +675,30 @@ def case(draw, route: str):
     return t
 
 
+_REG_OP = st.one_of(st.just(["get"]), st.tuples(st.just("rt"), st.booleans(), st.booleans()).map(list),
+                    st.just(["foreign", "prev"]), st.integers(1, 2 ** 32 - 1).map(lambda x: ["foreign", x]))
+
+
+@st.composite
+def registry_case(draw):
+    tid = draw(st.sampled_from(REGISTRY_IDS))
+    specs = draw(st.lists(msgs.struct_spec(1, 1, 4), min_size=1, max_size=3))
+    gens = []
+    for _ in range(draw(st.integers(2, 4))):
+        spec = draw(st.sampled_from(specs))
+        cls = msgs.resolve({"spec": spec, "rid": tid})
+        sets, seen = [], set()
+        if msgs.has_kind(cls, LEAF_KINDS):
+            for _ in range(draw(st.integers(0, 3))):
+                path, fi, _c = msgs.pick_target(draw, cls, LEAF_KINDS)
+                key = json.dumps([path, fi.name])
+                if key not in seen:
+                    seen.add(key)
+                    sets.extend(draw(_history(path, fi)))
+        gens.append({"spec": spec, "sets": sets, "ops": draw(st.lists(_REG_OP, max_size=3))})
+    return {"sub": "registry", "id": tid, "gens": gens}
+
+
 # ------------------------------------------------------------------------------------------------
 
 
@@ -583,6 +706,7 @@ def shard(seed: int, n: int) -> Result:
     res = Result()
     for i, route in enumerate(ROUTES):
         hyp_run(lambda t: run_case(t, res), case(route), seed * 8 + i, n, res)
+    hyp_run(lambda t: run_case(t, res), registry_case(), seed * 8 + 7, max(1, n // 2), res)
     return res
 
 
